@@ -142,3 +142,35 @@ Theorem now_timeout_clean :
   let r := run true true [[EStart]; [EWaitTimer]; [EStateTimer]] in
   b_w (fst r) = Done FlowFailed /\ b_ctx (fst r) = CFailed /\ snd r = 0.
 Proof. vm_compute. auto. Qed.
+
+(* ---- nothing is left in the event loop: no event, in any state, makes the (repaired) wait raise into the loop ---- *)
+Lemma step_quiet_all : forallb (fun s => forallb (fun e => Nat.eqb (snd (step true s e)) 0) all_ev) all_states = true.
+Proof. vm_compute. reflexivity. Qed.
+Lemma step_quiet s e : snd (step true s e) = 0.
+Proof.
+  pose proof (proj1 (forallb_forall _ _) step_quiet_all s (in_all_states s)) as A. cbv beta in A.
+  apply Nat.eqb_eq. exact (proj1 (forallb_forall _ _) A e (in_all_ev e)).
+Qed.
+Lemma steps_quiet evs : forall s n, snd (fold_left (fun acc e => let '(s', k) := step true (fst acc) e in (s', snd acc + k)) evs (s, n)) = n.
+Proof.
+  induction evs as [|e evs IH]; intros s n; [reflexivity|]. cbn [fold_left fst snd].
+  pose proof (step_quiet s e) as Q. destruct (step true s e) as [s' k]. cbn in Q. subst k. rewrite IH. apply Nat.add_0_r.
+Qed.
+Theorem no_loop_exceptions hst instants : snd (run true hst instants) = 0.
+Proof.
+  assert (G : forall l acc, snd (fold_left (instant true) l acc) = snd acc).
+  { induction l as [|evs l IH]; intros acc; [reflexivity|]. cbn [fold_left]. rewrite IH.
+    unfold instant. pose proof (steps_quiet evs (fst acc) 0) as Q. unfold steps.
+    destruct (fold_left _ evs (fst acc, 0)) as [s' n]. cbn in Q. subst n. cbn. apply Nat.add_0_r. }
+  unfold run. rewrite G. reflexivity.
+Qed.
+
+(* regression witness: before the repair a second copy of the awaited packet in the same instant raised into the loop *)
+Theorem old_repeat_refuted : snd (run false true [[EStart]; [EMatch; EMatch]]) = 1.
+Proof. vm_compute. reflexivity. Qed.
+
+(* ---- a packet belongs to at most one phase: in particular a (broadcast) offer is never taken for a confirm ---- *)
+Theorem phases_exclusive : forall c v d p q, is_phase c v d p = true -> is_phase c v d q = true -> p = q.
+Proof. intros [] [] [] [] []; cbn; intros H1 H2; try discriminate; reflexivity. Qed.
+Theorem offer_is_not_confirm : forall c v d, is_phase c v d Tender = true -> is_phase c v d Affirm = false.
+Proof. intros [] [] []; cbn; intros H; try discriminate; reflexivity. Qed.
